@@ -160,6 +160,7 @@ def check(rep, tier, seed):
                       "holds" if ok and chain_ok else "violated", "headers after signing: %d" % len(after), 0, "mirsym", key="C04.build_request", reproduced=None))
     rep.add(Query("witness: build_request has signed paths", "witness-hit" if n else "witness-missed", "%d" % n, 0, "mirsym"))
     rep.bounds["build_request"] = "header loop bound 2 (<=2 caller headers); %d paths" % len(rb)
+    check_canonicalisers(rep, ctx, tier)
     # exemption list semantics (shared with C15)
     p_c15.skip_sig_semantics(rep, ctx, "C04")
     rep.assumptions += ["a latched key is valid hex, so compute_signature succeeds (the failure branch relays unsigned and is reported by the host as an authentication error)",
@@ -167,6 +168,158 @@ def check(rep, tier, seed):
     rep.outside_claim += ["collision-freedom of get_path_and_canonicalized_parameters / headers_to_canonicalized_string (format!, HashMap, HeaderMap, sorting over symbolic strings: "
                           "no installed engine finishes 4-byte instances, DESIGN.md section 2)", "HMAC-SHA256 itself (hmac-sha256 crate)", "bytes on the wire (hyper)"]
     rep.trusted += ["mirsym", "z3", "http crate"]
+
+
+PARAM_TEST = '''
+#[cfg(test)]
+mod verif_replay_c04_params {
+    #[test]
+    fn c04_every_query_parameter_is_in_the_canonical_string() {
+        let url: hyper::Uri = %(url)s.parse().unwrap();
+        let pairs = super::query_pairs(&url);
+        let canon = super::get_path_and_canonicalized_parameters(&url).1;
+        let items: Vec<&str> = canon.split('&').collect();
+        for (k, v) in pairs {
+            let want = if v.is_empty() { k.to_lowercase() } else { format!("{}={}", k.to_lowercase(), v) };
+            assert!(items.contains(&want.as_str()), "parameter {:?}={:?} of {:?} is missing from the canonical parameters {:?}", k, v, %(url)s, canon);
+        }
+    }
+}
+'''
+
+HEADER_TEST = '''
+#[cfg(test)]
+mod verif_replay_c04_headers {
+    #[test]
+    fn c04_every_header_value_is_in_the_canonical_string() {
+        let mut headers = hyper::HeaderMap::new();
+        headers.append("x-verif", hyper::header::HeaderValue::from_static(%(v1)s));
+        headers.append("x-verif", hyper::header::HeaderValue::from_static(%(v2)s));
+        let canon = super::headers_to_canonicalized_string(&headers);
+        for v in [%(v1)s, %(v2)s] {
+            assert!(canon.contains(&format!("x-verif:{}", v.trim())), "header value {:?} is missing from the canonical headers {:?}", v, canon);
+        }
+    }
+}
+'''
+
+
+def check_canonicalisers(rep, ctx, tier):
+    """Which (name, value) pairs collapse into one canonical entry? Decided with cvc5 over the key expression read from the MIR."""
+    import strterm, smtstr, replay
+    N = 3 if tier == "quick" else 6
+    # ---- query parameters ----
+    path = ctx.one("hyper_client::get_path_and_canonicalized_parameters")
+    eng = ctx.engine(loop_bound=2, max_paths=5000)
+    paths = eng.explore(path)
+    rep.functions_encoded.append(path)
+    key_terms = set()
+    for r in paths:
+        for e in r.events:
+            if e.kind == "call" and e.callee.endswith("HashMap::insert") and len(e.rargs) == 3:
+                nxt = [x for x in r.events[:r.events.index(e)] if x.kind == "call" and x.callee.endswith("::next")]
+                if not nxt:
+                    continue
+                elem = nxt[-1].ret
+
+                def leaf(v, elem=elem):
+                    o = origin(v)
+                    if isinstance(o, Sym) and is_part_of(o, elem):
+                        chain = []
+                        cur = o
+                        while isinstance(cur, Sym) and cur.tag[0] == "part":
+                            chain.append(cur.tag[2]); cur = origin(cur.tag[1])
+                        ks = [c for c in chain if isinstance(c, tuple) and c[0] == "f"]
+                        if ks:
+                            return "K" if ks[0][1] == 0 else "V"
+                    return None
+                try:
+                    tb = strterm.TermBuilder(r.events, leaf)
+                    key_terms.add(tb.term(e.rargs[1]))
+                except Inconclusive as ex:
+                    key_terms.add("?" + str(ex))
+    if len(key_terms) != 1 or next(iter(key_terms)).startswith("?"):
+        rep.add(Query("canonical parameters: the de-duplication key is expressible over (name, value)", "inconclusive", str(sorted(key_terms))[:300], 0, "mirsym", key="C04.canonical-params:key"))
+    else:
+        kt = next(iter(key_terms))
+
+        def inst(t, k, v):
+            return re.sub(r"\bK\b", k, re.sub(r"\bV\b", v, t))
+        decl = "(set-logic ALL)\n" + "".join("(declare-const %s String)\n" % x + smtstr.ascii_bounded(x, N, 0x30, 0x7a) for x in ("k1", "v1", "k2", "v2")) + \
+            "".join("(assert (not (str.contains %s \"=\")))\n(assert (not (str.contains %s \"&\")))\n" % (x, x) for x in ("k1", "k2", "v1", "v2")) + \
+            "(assert (>= (str.len k1) 1))\n(assert (>= (str.len k2) 1))\n"
+        same = "(assert (= %s %s))\n" % (inst(kt, "k1", "v1"), inst(kt, "k2", "v2"))
+        qa = decl + "(assert (= (str.to_lower k1) (str.to_lower k2)))\n(assert (not (= v1 v2)))\n" + same + "(check-sat)\n(get-model)\n"
+        qb = decl + "(assert (not (= (str.to_lower k1) (str.to_lower k2))))\n" + same + "(check-sat)\n(get-model)\n"
+        for (qn, q, key) in (("canonical parameters (key = %s): two values of the SAME name never collapse into one entry" % kt, qa, "C04.canonical-params:same-name-values-collapse"),
+                             ("canonical parameters (key = %s): parameters with DIFFERENT names never collapse into one entry" % kt, qb, "C04.canonical-params:different-names-collapse")):
+            res, model, dt, raw = smtstr.run_cvc5(q)
+            if res == "unsat":
+                rep.add(Query(qn + " (names/values <= %d chars)" % N, "holds", "", dt, "mirsym+cvc5", key=key))
+            elif res == "sat":
+                url = "http://localhost/p?%s=%s&%s=%s" % (model.get("k1", ""), model.get("v1", ""), model.get("k2", ""), model.get("v2", ""))
+                code = PARAM_TEST % {"url": json.dumps(url)}
+                tres, out = replay.run_rust_tests("azure-proxy-agent", [("proxy_agent/src/common/hyper_client.rs", code)], "verif_replay_c04_params")
+                rp = save_replay("C04", key.split(":")[1] + ".rs", "// append to proxy_agent/src/common/hyper_client.rs; cargo test -p azure-proxy-agent verif_replay_c04_params\n" + code)
+                st = (tres or {}).get("c04_every_query_parameter_is_in_the_canonical_string")
+                if st == "FAILED":
+                    rep.traces_validated += 1
+                rep.add(Query(qn, "violated" if st in ("FAILED", "ok") else "inconclusive", "cvc5 model %s -> url %s; native replay: %s" % (model, url, st), dt, "mirsym+cvc5", key=key, model=model, replay=rp,
+                              reproduced=True if st == "FAILED" else (False if st == "ok" else None)))
+            else:
+                rep.add(Query(qn, "inconclusive", raw, dt, "mirsym+cvc5", key=key))
+    # ---- headers ----
+    path = ctx.one("hyper_client::headers_to_canonicalized_string")
+    eng = ctx.engine(loop_bound=2, max_paths=5000)
+    paths = eng.explore(path)
+    rep.functions_encoded.append(path)
+    hk = set()
+    for r in paths:
+        for e in r.events:
+            if e.kind == "call" and e.callee.endswith("HashMap::insert") and len(e.rargs) == 3:
+                nxt = [x for x in r.events[:r.events.index(e)] if x.kind == "call" and x.callee.endswith("::next")]
+                if not nxt:
+                    continue
+                elem = nxt[-1].ret
+
+                def leaf(v, elem=elem):
+                    o = origin(v)
+                    if isinstance(o, Sym) and is_part_of(o, elem):
+                        cur, chain = o, []
+                        while isinstance(cur, Sym) and cur.tag[0] == "part":
+                            chain.append(cur.tag[2]); cur = origin(cur.tag[1])
+                        ks = [c for c in chain if isinstance(c, tuple) and c[0] == "f"]
+                        if ks:
+                            return "K" if ks[0][1] == 0 else "V"
+                    return None
+                try:
+                    hk.add(strterm.TermBuilder(r.events, leaf).term(e.rargs[1]))
+                except Inconclusive as ex:
+                    hk.add("?" + str(ex))
+    if len(hk) != 1 or next(iter(hk)).startswith("?"):
+        rep.add(Query("canonical headers: the de-duplication key is expressible over (name, value)", "inconclusive", str(sorted(hk))[:300], 0, "mirsym", key="C04.canonical-headers:key"))
+    else:
+        kt = next(iter(hk))
+        qn = "canonical headers (key = %s): two values sent under one header name never collapse into one entry" % kt
+        key = "C04.canonical-headers:repeated-name-values-collapse"
+        q = "(set-logic ALL)\n" + "".join("(declare-const %s String)\n" % x + smtstr.ascii_bounded(x, N, 0x61, 0x7a) for x in ("k1", "v1", "v2")) + \
+            "(assert (>= (str.len k1) 1))\n(assert (>= (str.len v1) 1))\n(assert (>= (str.len v2) 1))\n(assert (not (= v1 v2)))\n" + \
+            "(assert (= %s %s))\n(check-sat)\n(get-model)\n" % (re.sub(r"\bV\b", "v1", re.sub(r"\bK\b", "k1", kt)), re.sub(r"\bV\b", "v2", re.sub(r"\bK\b", "k1", kt)))
+        res, model, dt, raw = smtstr.run_cvc5(q)
+        if res == "unsat":
+            rep.add(Query(qn, "holds", "", dt, "mirsym+cvc5", key=key))
+        elif res == "sat":
+            code = HEADER_TEST % {"v1": json.dumps(model.get("v1", "a")), "v2": json.dumps(model.get("v2", "b"))}
+            tres, out = replay.run_rust_tests("azure-proxy-agent", [("proxy_agent/src/common/hyper_client.rs", code)], "verif_replay_c04_headers")
+            rp = save_replay("C04", "repeated_header_values.rs", "// append to proxy_agent/src/common/hyper_client.rs; cargo test -p azure-proxy-agent verif_replay_c04_headers\n" + code)
+            st = (tres or {}).get("c04_every_header_value_is_in_the_canonical_string")
+            if st == "FAILED":
+                rep.traces_validated += 1
+            rep.add(Query(qn, "violated" if st in ("FAILED", "ok") else "inconclusive", "cvc5 model %s; native replay: %s" % (model, st), dt, "mirsym+cvc5", key=key, model=model, replay=rp,
+                          reproduced=True if st == "FAILED" else (False if st == "ok" else None)))
+        else:
+            rep.add(Query(qn, "inconclusive", raw, dt, "mirsym+cvc5", key=key))
+    rep.bounds["canonicalisers"] = "names/values <= %d ASCII characters; <= 2 parameters / headers iterated" % N
 
 
 def _builder_chain(r, signed_builder, completed_builder):
